@@ -91,20 +91,14 @@ Definition wf_owned (cap psize : N) (m : list N) (b : rbuf) : Prop :=
 Definition owned_wf (cap psize : N) (s : rstate) : Prop :=
   exists b, st_owned s = Some b /\ wf_owned cap psize (st_mem s) b.
 
-(** What a build without overflow checks and debug assertions needs from the caller:
-    [set_len] within its documented contract, and no bound whose [+ 1] leaves [usize]. In a
-    build with them ([dbg = true]) nothing is needed. *)
-Definition plus_one_fits (rs re : bound) : Prop :=
-  match rs with Excl s => s < usize_max | _ => True end /\
-  match re with Incl e => e < usize_max | _ => True end.
+(** What a build without debug assertions needs from the caller: [set_len] within its
+    documented contract (it is an [unsafe fn]). In a build with them ([dbg = true]) nothing is
+    needed: the assertion rejects the call. *)
+Definition set_len_in_contract (cap : N) (e : edit) : Prop :=
+  match e with SetLen n => n <= cap | _ => True end.
 
 Definition edit_ok (dbg : bool) (cap : N) (e : edit) : Prop :=
-  dbg = true \/
-  match e with
-  | SetLen n => n <= cap
-  | Remove rs re => plus_one_fits rs re
-  | _ => True
-  end.
+  dbg = true \/ set_len_in_contract cap e.
 
 Definition abs (cap : N) (s : rstate) : bvec :=
   match st_owned s with
@@ -123,11 +117,10 @@ Proof.
   rewrite skipn_app_r. rewrite <- app_assoc. reflexivity.
 Qed.
 
-Lemma uadd1_cases dbg x :
-  (x + 1 < two64 /\ uadd1 dbg x = Some (x + 1)) \/
-  (two64 <= x + 1 /\ uadd1 dbg x = if dbg then None else Some 0).
+Lemma checked_add1_cases x :
+  (x + 1 < two64 /\ checked_add1 x = Some (x + 1)) \/ (two64 <= x + 1 /\ checked_add1 x = None).
 Proof.
-  unfold uadd1. destruct (N.ltb_spec (x + 1) two64); [left|right]; auto.
+  unfold checked_add1. destruct (N.ltb_spec (x + 1) two64); [left|right]; auto.
 Qed.
 
 Lemma cap_lt_two64 cap : cap < two32 -> cap < two64.
@@ -161,24 +154,20 @@ Proof.
   rewrite <- !app_assoc. reflexivity.
 Qed.
 
-Lemma norm_start_ok dbg cap rs re :
-  edit_ok dbg cap (Remove rs re) ->
-  norm_start dbg rs = Some (range_lo rs) \/ (norm_start dbg rs = None /\ two64 <= range_lo rs).
+(** Bounds resolved by the code = bounds resolved over unbounded naturals, or a panic for a
+    bound beyond [usize]. *)
+Lemma norm_start_ok rs :
+  norm_start rs = Some (range_lo rs) \/ (norm_start rs = None /\ two64 <= range_lo rs).
 Proof.
-  intros Hok. destruct rs as [s|s|]; cbn [norm_start range_lo]; auto.
-  destruct (uadd1_cases dbg s) as [[_ ->]|[H ->]]; auto.
-  destruct Hok as [->|[Hs _]]; [right; auto|].
-  cbn beta iota in Hs. unfold usize_max, two64 in *. lia.
+  destruct rs as [s|s|]; cbn [norm_start range_lo]; auto.
+  destruct (checked_add1_cases s) as [[_ ->]|[H ->]]; auto.
 Qed.
 
-Lemma norm_end_ok dbg cap rs re ln :
-  edit_ok dbg cap (Remove rs re) ->
-  norm_end dbg ln re = Some (range_hi ln re) \/ (norm_end dbg ln re = None /\ two64 <= range_hi ln re).
+Lemma norm_end_ok re ln :
+  norm_end ln re = Some (range_hi ln re) \/ (norm_end ln re = None /\ two64 <= range_hi ln re).
 Proof.
-  intros Hok. destruct re as [s|s|]; cbn [norm_end range_hi]; auto.
-  destruct (uadd1_cases dbg s) as [[_ ->]|[H ->]]; auto.
-  destruct Hok as [->|[_ Hs]]; [right; auto|].
-  cbn beta iota in Hs. unfold usize_max, two64 in *. lia.
+  destruct re as [s|s|]; cbn [norm_end range_hi]; auto.
+  destruct (checked_add1_cases s) as [[_ ->]|[H ->]]; auto.
 Qed.
 
 Ltac three := split; [|split].
@@ -210,8 +199,8 @@ Proof.
   - (* remove *)
     rewrite Hnd.
     set (lo := range_lo rs). set (hi := range_hi ln re).
-    destruct (norm_start_ok dbg cap rs re Hok) as [Hs|[Hs Hlo]]; rewrite Hs;
-      [destruct (norm_end_ok dbg cap rs re ln Hok) as [He|[He Hhi]]; rewrite He|]; fold lo hi.
+    destruct (norm_start_ok rs) as [Hs|[Hs Hlo]]; rewrite Hs;
+      [destruct (norm_end_ok re ln) as [He|[He Hhi]]; rewrite He|]; fold lo hi.
     2,3: intros E; inv_step E sb' b' o; rewrite Hsame; (three; [lia|reflexivity|]);
       destruct (N.leb_spec lo hi); destruct (N.leb_spec hi ln); cbn [andb]; try reflexivity; lia.
     destruct (N.ltb_spec hi lo).
@@ -288,8 +277,8 @@ Proof.
     unfold parts_mut, set_init, change_size; cbn [rb_len rb_ptr].
   - destruct (ln <? n); reflexivity.
   - reflexivity.
-  - destruct (norm_start dbg rs) as [st|]; [|reflexivity].
-    destruct (norm_end dbg ln re) as [en|]; [|reflexivity].
+  - destruct (norm_start rs) as [st|]; [|reflexivity].
+    destruct (norm_end ln re) as [en|]; [|reflexivity].
     destruct (N.ltb_spec en st); [reflexivity|].
     destruct (N.ltb_spec ln en); [reflexivity|].
     destruct ((ln - (en - st) =? 0) || (ln - (en - st) <=? st)); [reflexivity|].
@@ -411,13 +400,14 @@ Definition readbuf_refines_bounded_vec : Prop :=
     vec_run cap (abs cap s) es = (abs cap (fst (rb_run dbg cap s es)), snd (rb_run dbg cap s es)) /\
     owned_wf cap psize (fst (rb_run dbg cap s es)).
 
-(** The same without the side condition [edit_ok]: false for a build without overflow
-    checks, see [release_build_remove_wraps_refuted]. *)
+(** Every build, with the one thing an [unsafe fn] may ask of its caller: [set_len] within
+    the capacity. (Before the repair of H23 this was false for builds without overflow
+    checks, see [remove_bounds_h23_refuted].) *)
 Definition readbuf_refines_bounded_vec_every_build : Prop :=
   forall dbg cap psize s es,
-    pool_ok cap psize -> owned_wf cap psize s ->
-    Forall (fun e => match e with SetLen n => n <= cap | _ => True end) es ->
-    vec_run cap (abs cap s) es = (abs cap (fst (rb_run dbg cap s es)), snd (rb_run dbg cap s es)).
+    pool_ok cap psize -> owned_wf cap psize s -> Forall (set_len_in_contract cap) es ->
+    vec_run cap (abs cap s) es = (abs cap (fst (rb_run dbg cap s es)), snd (rb_run dbg cap s es)) /\
+    owned_wf cap psize (fst (rb_run dbg cap s es)).
 
 (** (b) Every sequence of calls leaves all pool memory outside the buffer's own slot as it
     was, and the buffer keeps pointing at that slot. *)
@@ -468,7 +458,7 @@ Proof.
   destruct e as [n| |rs re|n|xs| |xs]; cbn [step_owned].
   - destruct (rb_len b <? n); cbn; intros [H|H]; discriminate.
   - cbn; intros [H|H]; discriminate.
-  - destruct (norm_start dbg rs); [|reflexivity]. destruct (norm_end dbg (rb_len b) re); [|reflexivity].
+  - destruct (norm_start rs); [|reflexivity]. destruct (norm_end (rb_len b) re); [|reflexivity].
     destruct (_ <? _); [reflexivity|]. destruct (_ <? _); [reflexivity|].
     destruct (_ || _); cbn; intros [H|H]; discriminate.
   - destruct (dbg && _); [reflexivity|]. cbn; intros [H|H]; discriminate.
@@ -559,8 +549,8 @@ Proof.
       unfold parts_mut, set_init, change_size in E; cbn [rb_len rb_ptr] in E.
     - destruct (ln <? n); inversion E; subst; exact Hs1.
     - inversion E; subst; exact Hs1.
-    - destruct (norm_start dbg rs) as [st|]; [|inversion E; subst; exact Hs1].
-      destruct (norm_end dbg ln re) as [en|]; [|inversion E; subst; exact Hs1].
+    - destruct (norm_start rs) as [st|]; [|inversion E; subst; exact Hs1].
+      destruct (norm_end ln re) as [en|]; [|inversion E; subst; exact Hs1].
       destruct (N.ltb_spec en st); [inversion E; subst; exact Hs1|].
       destruct (N.ltb_spec ln en); [inversion E; subst; exact Hs1|].
       destruct (_ || _); inversion E; subst; [exact Hs1|].
@@ -582,7 +572,7 @@ Proof.
   destruct e as [n| |rs re|n|xs| |xs]; cbn [step_owned].
   - destruct (_ <? _); reflexivity.
   - reflexivity.
-  - destruct (norm_start dbg rs); [|reflexivity]. destruct (norm_end dbg (rb_len b) re); [|reflexivity].
+  - destruct (norm_start rs); [|reflexivity]. destruct (norm_end (rb_len b) re); [|reflexivity].
     destruct (_ <? _); [reflexivity|]. destruct (_ <? _); [reflexivity|].
     destruct (_ || _); reflexivity.
   - destruct (dbg && _); reflexivity.
@@ -641,6 +631,13 @@ Proof.
   exact (proj1 (readbuf_refines_bounded_vec_holds true cap psize s es Hpool Hwf (all_edits_ok_debug cap es))).
 Qed.
 
+Lemma readbuf_refines_bounded_vec_every_build_holds : readbuf_refines_bounded_vec_every_build.
+Proof.
+  intros dbg cap psize s es Hpool Hwf Hc.
+  apply (readbuf_refines_bounded_vec_holds dbg cap psize s es Hpool Hwf).
+  eapply Forall_impl; [|exact Hc]. intros e He. right. exact He.
+Qed.
+
 (** Non-vacuity: a pool of two 4-byte buffers, buffer 1 filled with 3 bytes; the calls
     qualify, and this is what they do (a removal, a fitting and a refused extension, a
     rejected [set_len] beyond the capacity, a rejected out-of-bounds range). *)
@@ -660,54 +657,30 @@ Proof.
   split; [apply init_state_wf; [reflexivity|lia|lia]|].
   split; [apply all_edits_ok_debug|].
   split; [|vm_compute; reflexivity].
-  constructor; [right; split; exact I|].
   constructor; [right; exact I|].
-  constructor; [right; cbn beta iota; lia|]. constructor.
+  constructor; [right; exact I|].
+  constructor; [right; unfold set_len_in_contract; lia|]. constructor.
 Qed.
 
-(** * What a build without overflow checks does with a bound whose [+ 1] leaves [usize] *)
+(** * What the code did before the repair of H23 (unchecked [bound + 1]) *)
 
-(** [remove((Bound::Excluded(usize::MAX), Bound::Unbounded))] on a full 4-byte buffer: the
-    vector rejects the range; the buffer accepts it and ends up empty. *)
-Lemma release_build_remove_wraps_refuted :
-  exists cap psize s e,
-    pool_ok cap psize /\ owned_wf cap psize s /\
-    vec_step cap (abs cap s) e = (abs cap s, Rejected) /\
-    snd (rb_step false cap s e) = Done 0 /\
-    v_data (abs cap s) = [1; 2; 3; 4] /\
-    v_data (abs cap (fst (rb_step false cap s e))) = [].
+(** Without overflow checks the old normalisation turned the bounds
+    [(Excluded(usize::MAX), Unbounded)] into the valid range [0 .. len] (so [remove] emptied
+    the buffer) and [..=usize::MAX] into [0 .. 0] (so [remove] did nothing), where the vector
+    rejects both ranges; the repaired normalisation rejects both in every build. *)
+Lemma remove_bounds_h23_refuted :
+  exists rs re ln,
+    norm_start_h23 false rs = Some 0 /\ norm_end_h23 false ln re = Some ln /\
+    ~ (range_lo rs <= range_hi ln re /\ range_hi ln re <= ln) /\
+    norm_start rs = None /\
+    norm_start_h23 false Unb = Some 0 /\ norm_end_h23 false ln (Incl usize_max) = Some 0 /\
+    ~ (range_hi ln (Incl usize_max) <= ln) /\
+    norm_end ln (Incl usize_max) = None.
 Proof.
-  exists 4, 1, {| st_mem := [1; 2; 3; 4]; st_owned := Some (init_buffer 4 0 4) |},
-    (Remove (Excl usize_max) Unb).
-  split; [unfold pool_ok, two32; lia|].
-  split; [apply init_state_wf; [reflexivity|lia|lia]|].
-  repeat split; vm_compute; reflexivity.
-Qed.
-
-(** [remove(..=usize::MAX)] on the same buffer: rejected by the vector, silently accepted
-    (removing nothing) by the buffer. *)
-Lemma release_build_remove_wraps_refuted_2 :
-  exists cap psize s e,
-    pool_ok cap psize /\ owned_wf cap psize s /\
-    snd (vec_step cap (abs cap s) e) = Rejected /\ snd (rb_step false cap s e) = Done 0.
-Proof.
-  exists 4, 1, {| st_mem := [1; 2; 3; 4]; st_owned := Some (init_buffer 4 0 4) |},
-    (Remove Unb (Incl usize_max)).
-  split; [unfold pool_ok, two32; lia|].
-  split; [apply init_state_wf; [reflexivity|lia|lia]|].
-  split; vm_compute; reflexivity.
-Qed.
-
-Lemma every_build_refuted : ~ readbuf_refines_bounded_vec_every_build.
-Proof.
-  intros H.
-  specialize (H false 4 1 {| st_mem := [1; 2; 3; 4]; st_owned := Some (init_buffer 4 0 4) |}
-                [Remove (Excl usize_max) Unb]).
-  assert (Hp : pool_ok 4 1) by (unfold pool_ok, two32; lia).
-  assert (Hw : owned_wf 4 1 {| st_mem := [1; 2; 3; 4]; st_owned := Some (init_buffer 4 0 4) |})
-    by (apply init_state_wf; [reflexivity|lia|lia]).
-  specialize (H Hp Hw ltac:(repeat constructor)).
-  vm_compute in H. discriminate H.
+  exists (Excl usize_max), Unb, 4.
+  repeat split; try (vm_compute; reflexivity).
+  - intros [H _]. vm_compute in H. apply H. reflexivity.
+  - intros H. vm_compute in H. apply H. reflexivity.
 Qed.
 
 (** * Before the kernel selected a buffer ([owned = None], outside the property): every call
